@@ -132,7 +132,7 @@ PROPS = {
         theorems={ERRORS: ["C11_next_never_raises_expr", "C11_update_never_raises_expr", "C11_render_never_raises_expr", "C11_request_never_raises_expr"], STATUS: ["tbl_failed_request_total"], SITES: ["evalSites_guarded", "evalSites_nonempty"], ERRLOG: ["C11_errors_persist"],
                   NEXTTOTAL: ["C11_next_never_raises", "C11_next_never_raises_history", "C11_error_handler_total"]},
         keys=["status", "errors", "staged"], offers="ids",
-        prof=dict(p_badexpr=0.7, p_badtype=0.25), hist=dict(p_pause=0.05, p_cancel=0.1, p_task_pause=0.15, p_first_pending=0.1), monitor="C11",
+        prof=dict(p_badexpr=0.7, p_badtype=0.25), hist=dict(p_pause=0.05, p_cancel=0.1, p_task_pause=0.15, p_first_pending=0.1, p_rerun=0.35), monitor="C11",
         unproven=["'recorded and failed' postcondition proved only as: an error entry is logged before the failed request (C11_*), not as a full postcondition"],
     ),
     "C12": dict(
